@@ -439,8 +439,8 @@ def plan_for(prop, tier, seed, replay_file=None):
         return dict(jobs=store_jobs(prop, tier, seed) + find, rule=STORE_RULE, assumptions=STORE_ASSUMPTIONS)
     if prop == 'C14':
         big = dict(MaxAnns=10, MaxRes=3, MaxData=10, MaxSets=2, MaxKeys=6)
-        batch = [gen_job('batch_p2', 'batch', 2, depth=1, style=seed % 5, per_state=False, **big),
-                 gen_job('batch_p5', 'batch', 5, depth=1 if tier == 'quick' else 2, style=(seed + 1) % 5, per_state=False, sample_mod=1 if tier == 'quick' else 7, **big)]
+        batch = [gen_job('batch_p2', 'batch', 2, depth=1, style=(0, 2, 3)[seed % 3], per_state=False, **big),
+                 gen_job('batch_p5', 'batch', 5, depth=1 if tier == 'quick' else 2, style=(2, 3, 0)[seed % 3], per_state=False, sample_mod=1 if tier == 'quick' else 7, **big)]
         return dict(jobs=store_jobs(prop, tier, seed) + batch, rule=STORE_RULE, assumptions=STORE_ASSUMPTIONS)
     if prop == 'C03':
         big = dict(MaxAnns=10, MaxRes=3, MaxData=4)
